@@ -2,7 +2,7 @@
 import ast
 
 from .common import (ctx, family, tests_on, returns, const_bool, calls_in_ctx, reach_from_succ, self_attr, site,
-                     srcs_text, is_call_to)
+                     srcs_text, is_call_to, int_truthiness_uses)
 from ..flow import callee_attr
 from ..loader import AnalysisError, norm
 
@@ -340,5 +340,18 @@ def run(R):
             R.fail('C04.RET.1', inst, cx.qual, construct, 'reply ' + what, site(cx, construct if not isinstance(construct, str) else cx.f.node))
     else:
         R.ok('C04.RET.1', inst, site(cx, cx.f.node), f'{len(returns(cx))} return(s), no fall-through')
+    # ---------------------------------------------------------------- C04.NUL.1 lifetime 0 is a lifetime, not "absent"
+    R.ob('C04.NUL.1', 'the Interest lifetime (optional integer) is tested with `is None`, never by truthiness, when the reply deadline is computed')
+    n_uses = 0
+    for cxx in family(R, 'ndn.appv2.NDNApp._on_interest'):
+        for (e, d) in int_truthiness_uses(P, cxx):
+            n_uses += 1
+            R.fail('C04.NUL.1', f'{cxx.qual} :: {norm(e)[:80]}', cxx.qual, e, f'{d} is tested by truthiness: an InterestLifetime of 0 is '
+                   'treated as absent and the default deadline is used', site(cxx, e))
+    top = family(R, 'ndn.appv2.NDNApp._on_interest')[0]
+    lt = [n for n in top.cfg.nodes if n.kind == 'test' and 'lifetime' in ast.unparse(n.ast)]
+    if not n_uses:
+        R.ok('C04.NUL.1', 'ndn.appv2.NDNApp._on_interest :: lifetime presence tests', site(top, lt[0].ast) if lt else '',
+             f'{len(lt)} test(s) on the lifetime, none by truthiness')
     R.assumptions += ['pygtrie.Trie.longest_prefix returns the longest stored prefix and a falsy step when none matches',
                       'user handlers do not re-enter the dispatch']
